@@ -305,6 +305,12 @@ impl Prop for RoundTrip {
         if py.is_some() && !((pm.is_some() && pd.is_some()) || pdd.is_some()) && (f.year == cal::MIN_YMD.0 || f.year == cal::MAX_YMD.0) {
             return Verdict::Skip("partial date in a range-end year (the defaulted month/day may not exist there)");
         }
+        if c.kind == Kind::DateTime && (c.v.day <= cal::MIN_DAY + 1 || c.v.day >= cal::MAX_DAY - 1) {
+            let full = py.is_some() && py != Some(2) && ((pm.is_some() && pd.is_some()) || pdd.is_some()) && hour_ok && pmin.is_some() && psec.is_some();
+            if !full {
+                return Verdict::Skip("value on an outermost day with a pattern that drops date/time fields (the truncated value may not be representable)");
+            }
+        }
         // classification
         let nfields = seen.len();
         if nfields >= 4 && t.iter().any(|tk| matches!(tk, Tok::Field { sym, width } if is_var(*sym, *width))) {
@@ -312,6 +318,9 @@ impl Prop for RoundTrip {
         }
         if f.year < 0 && py.is_some() {
             cx.nt("bc_year");
+        }
+        if c.kind != Kind::Time && (c.v.day <= cal::MIN_DAY + 1 || c.v.day >= cal::MAX_DAY - 1) {
+            cx.nt("value_on_an_outermost_day");
         }
         if f.year.abs() >= 10_000 && py.is_some() {
             cx.nt("5+_digit_year");
